@@ -12,9 +12,11 @@ import (
 	"go/printer"
 	"go/token"
 	"go/types"
+	"math"
 	"os"
 	"reflect"
 	"regexp"
+	"strconv"
 	"strings"
 
 	"github.com/traefik/yaegi/interp"
@@ -22,8 +24,8 @@ import (
 	"verif/engine/report"
 )
 
-var leaves = []string{"0", "1", "2", "3", "7", "127", "128", "255", "256", "32767", "32768", "65535", "65536", "2147483647", "2147483648", "4294967295", "4294967296", "9223372036854775807", "9223372036854775808", "18446744073709551615", "18446744073709551616", "1606938044258990275541962092341162602522202993782792835301376", "'a'", "'\\x00'", "1.5", "0.1", "1e100", "1e-100", "2i", `"ab"`, `""`, "true", "false"}
-var smallLeaves = []string{"0", "1", "3", "127", "128", "255", "9223372036854775807", "18446744073709551616", "'a'", "1.5", "2i", `"ab"`, "true"}
+var leaves = []string{"0", "1", "2", "3", "7", "127", "128", "255", "256", "32767", "32768", "65535", "65536", "2147483647", "2147483648", "4294967295", "4294967296", "9223372036854775807", "9223372036854775808", "18446744073709551615", "18446744073709551616", "1606938044258990275541962092341162602522202993782792835301376", "'a'", "'\\x00'", "1.5", "0.1", "1e100", "1e-100", "3.4e38", "3.5e38", "1e39", "1.7e308", "1e309", "1e-46", "2i", "3.5e38i", "1e39i", "1e309i", `"ab"`, `""`, "true", "false"}
+var smallLeaves = []string{"0", "1", "3", "127", "128", "255", "9223372036854775807", "18446744073709551616", "'a'", "1.5", "3.5e38", "2i", "1e39i", `"ab"`, "true"}
 var binops = []string{"+", "-", "*", "/", "%", "&", "|", "^", "&^", "<<", ">>", "==", "!=", "<", "<=", ">", ">=", "&&", "||"}
 var unops = []string{"+", "-", "^", "!"}
 var convs = []string{"int", "int8", "int16", "int32", "int64", "uint", "uint8", "uint16", "uint32", "uint64", "uintptr", "float32", "float64", "complex64", "complex128", "string", "bool"}
@@ -42,11 +44,11 @@ func (k kase) body() string {
 		return "x := " + e + "\nh.Show(x)"
 	case "const":
 		return "const c = " + e + "\nx := c\nh.Show(x)"
-	case "var:int8", "var:uint8", "var:int32", "var:int64", "var:uint64", "var:float32", "var:float64", "var:string", "var:complex64":
+	case "var:int8", "var:uint8", "var:int32", "var:int64", "var:uint64", "var:float32", "var:float64", "var:string", "var:complex64", "var:complex128":
 		return "var x " + strings.TrimPrefix(k.Ctx, "var:") + " = " + e + "\nh.Show(x)"
-	case "tconst:int8", "tconst:uint16", "tconst:int64", "tconst:float32", "tconst:rune":
+	case "tconst:int8", "tconst:uint16", "tconst:int64", "tconst:float32", "tconst:rune", "tconst:float64", "tconst:complex64":
 		return "const c " + strings.TrimPrefix(k.Ctx, "tconst:") + " = " + e + "\nx := c\nh.Show(x)"
-	case "opvar:int8", "opvar:uint8", "opvar:int64", "opvar:float32":
+	case "opvar:int8", "opvar:uint8", "opvar:int64", "opvar:float32", "opvar:float64", "opvar:complex64":
 		return "var v " + strings.TrimPrefix(k.Ctx, "opvar:") + " = 1\nx := v + " + paren(e) + "\nh.Show(x)"
 	case "arraylen":
 		return "var a [" + e + "]struct{}\nx := len(a)\nh.Show(x)"
@@ -314,15 +316,29 @@ func cls(l string) string {
 	case strings.HasPrefix(l, "'"):
 		return "rune"
 	case strings.HasSuffix(l, "i"):
-		return "imag"
+		return "imag" + magnitude(strings.TrimSuffix(l, "i"))
 	case strings.ContainsAny(l, ".e"):
-		return "float"
+		return "float" + magnitude(l)
 	case len(l) >= 20:
 		return "int>64bit"
 	case len(l) >= 10:
 		return "int>31bit"
 	}
 	return "int"
+}
+
+// magnitude classifies a float literal by the smallest float type that holds it.
+func magnitude(l string) string {
+	v, err := strconv.ParseFloat(l, 64)
+	switch {
+	case err != nil || math.IsInf(v, 0):
+		return ">f64"
+	case math.Abs(v) > math.MaxFloat32:
+		return ">f32"
+	case v != 0 && math.Abs(v) < 1e-45:
+		return "<f32"
+	}
+	return ""
 }
 
 var tokRe = regexp.MustCompile(`"[^"]*"|'[^']*'|[0-9][0-9a-z.+-]*|true|false`)
@@ -428,8 +444,8 @@ func cases(thorough bool) []kase {
 			}
 		}
 	}
-	ctxs := []string{"const", "var:int8", "var:uint8", "var:int32", "var:int64", "var:uint64", "var:float32", "var:float64", "var:string", "var:complex64",
-		"tconst:int8", "tconst:uint16", "tconst:int64", "tconst:float32", "tconst:rune", "opvar:int8", "opvar:uint8", "opvar:int64", "opvar:float32", "arraylen"}
+	ctxs := []string{"const", "var:int8", "var:uint8", "var:int32", "var:int64", "var:uint64", "var:float32", "var:float64", "var:string", "var:complex64", "var:complex128",
+		"tconst:int8", "tconst:uint16", "tconst:int64", "tconst:float32", "tconst:rune", "tconst:float64", "tconst:complex64", "opvar:int8", "opvar:uint8", "opvar:int64", "opvar:float32", "opvar:float64", "opvar:complex64", "arraylen"}
 	for _, c := range ctxs {
 		for _, e := range ctxExprs {
 			if c == "arraylen" && (len(e) > 12 || strings.Contains(e, "<<")) {
